@@ -1132,13 +1132,27 @@ func (a *Agent) addRemotePassiveTCPCandidate(remoteCandidate Candidate) {
 			continue
 		}
 
+		// Same publication rules as for gathered host candidates: the mDNS name instead of
+		// the IP in mDNS gather mode, IPv6 link-local addresses are used but not published.
+		address := localIPs[i].addr.String()
+		isLocationTracked := false
+		if a.mDNSMode == MulticastDNSModeQueryAndGather {
+			address = a.mDNSName
+		} else {
+			isLocationTracked = shouldFilterLocationTrackedIP(localIPs[i].addr)
+		}
+
 		localCandidate, err := NewCandidateHost(&CandidateHostConfig{
-			Network:   remoteCandidate.NetworkType().String(),
-			Address:   localIPs[i].addr.String(),
-			Port:      tcpAddr.Port,
-			Component: ComponentRTP,
-			TCPType:   TCPTypeActive,
+			Network:           remoteCandidate.NetworkType().String(),
+			Address:           address,
+			Port:              tcpAddr.Port,
+			Component:         ComponentRTP,
+			TCPType:           TCPTypeActive,
+			IsLocationTracked: isLocationTracked,
 		})
+		if err == nil && a.mDNSMode == MulticastDNSModeQueryAndGather {
+			err = localCandidate.setIPAddr(localIPs[i].addr)
+		}
 		if err != nil {
 			closeConnAndLog(conn, a.log, "Failed to create Active ICE-TCP Candidate: %v", err)
 
@@ -1151,7 +1165,9 @@ func (a *Agent) addRemotePassiveTCPCandidate(remoteCandidate Candidate) {
 			a.localCandidates[localCandidate.NetworkType()],
 			localCandidate,
 		)
-		a.candidateNotifier.EnqueueCandidate(localCandidate)
+		if !localCandidate.filterForLocationTracking() {
+			a.candidateNotifier.EnqueueCandidate(localCandidate)
+		}
 
 		a.addPair(localCandidate, remoteCandidate)
 	}
